@@ -249,7 +249,7 @@ function like_to_regex(pattern) {
 function like(text, pattern) {
     let matcher = query_context.like_regex_cache.get(pattern);
     if (matcher === undefined) {
-        matcher = new RegExp(like_to_regex(pattern));
+        matcher = new RegExp(like_to_regex(pattern), 's'); // dotAll: a line break inside a multi-line field is a character like any other
         query_context.like_regex_cache.set(pattern, matcher);
     }
     return matcher.test(text);
